@@ -27,7 +27,7 @@ CHECKS = {
    'Five scenarios (tags + regex cache + serialisation, rejected loads, a mid-range discard policy driven by explicit steps of the virtual clock of the hooks, and the secondary entry points tag_exists / restricted checks / class-id lookup / resource reload on an Engine; add_filter + optimize + enable/disable_tags on a Blocker; cosmetic + scriptlet resources with refused and accepted add_resource calls (the model tracks the accepted extras); batch vs incremental construction; first-use orders of regex rules on the virtual clock); every history of depth 5/4/5 (quick) or 6/5/6 (thorough) whose last operation is a query is executed (S1: every operation at depth d-1, the core operations at depth d); environment answers (cleanup timer fired, regex discarded) are operations of the alphabet; failing histories are shrunk before classification.',
    'Hash-map iteration order inside the engine is not controlled; violating histories are re-executed twice and under a never-reuse allocator.', 'DESIGN §4 C06'),
  'C07': ('BX+HX', 'model_checking', 'exhaustive enumeration of rule subsets x tag sets and of tag-operation histories on real engines, compared with a set-algebra model and a tag-stripped reference engine',
-   'All subsets of a 14-rule pool (every category a tag combines with, same-bucket untagged neighbours) x optimise x 8 tag sets; all sequences of <= 3 (quick) / 4 (thorough) of 28 tag/deserialize operations on 4 lists; tag_exists after every step, full battery at the end; 9 tag-name spellings (empty, padded, case twins, inner blank, non-ASCII) on the rule side x the API side x three ways to reach a set x 4 rule categories x optimise.',
+   'All subsets of a 14-rule pool (every category a tag combines with, same-bucket untagged neighbours) x optimise x 8 tag sets; all sequences of <= 3 (quick) / 4 (thorough) of 28 tag/deserialize operations on 4 lists; tag_exists after every step, full battery at the end; 9 tag-name spellings (empty, padded, case twins, inner blank, non-ASCII) on the rule side x the API side x three ways to reach a set x 4 rule categories x optimise; every sequence of <= 4 (thorough 5) of 11 operations (tag switches, add_filter of a tagged rule of each category) on a Blocker, compared with a blocker built in one go.',
    'The tag-stripped reference engine is built by the same crate (differential).', 'DESIGN §4 C07'),
  'C08': ('BX', 'model_checking', T_BX + 'differential between the original engine and the engine reloaded from its serialisation, field by field',
    'All ordered lists of <= 2 (quick) / <= 3 (thorough) rules of an 87-rule alphabet (every network and cosmetic rule shape, twins) x debug x optimise x list permission (including mixed-permission lists), plus every rule-cube cell alone and with a same-pattern neighbour, serialised and loaded into five kinds of receiver (fresh, tags preset, used engine holding other rules, and two receivers whose tag set differs from the one the producer had at save time), compared on 398 queries (network under every tag subset, CSP, cosmetic, class/id).',
@@ -51,7 +51,7 @@ CHECKS = {
    'URL = fixed prefix + every string of length <= 6 (quick) / 8 (thorough) over {?,#,&,=,a,b,e-acute}, and <= 5 / 6 over a second alphabet with upper case and a multi-character key, x every set of <= 2/3 rules of an 11-rule pool x 5 request types x 2 initiators; 6 other spellings of the URL base; every list of request-type options of a 61-list menu before and after removeparam= x 16 request types.',
    'Per-rule applicability from the real matcher and, independently, from a predicate written from the rule text.', 'DESIGN §4 C14'),
  'C15': ('BX', 'model_checking', T_BX + 'compared with CSP set algebra written from the property text; all list orders enumerated',
-   'All ordered lists of <= 3 (quick) / 5 (thorough) rules of a 24-rule csp alphabet, every tag subset, 8 URLs x all 19 request-type strings.',
+   'All ordered lists of <= 3 (quick) / 5 (thorough) rules of a 42-rule csp alphabet (including lines that carry csp next to another value-carrying modifier: every admissible reading is enumerated), every tag subset, 8 URLs x all 19 request-type strings.',
    'Per-rule applicability from the real matcher and, independently, from a predicate written from the rule text.', 'DESIGN §4 C15'),
  'C16': ('BX', 'model_checking', T_BX + 'compared with an independent string-level scoping model (no hashes) using addr::psl directly',
    'All ordered lists of <= 2 (quick) / connected triples (thorough) of a 514-rule cosmetic alphabet (36 location forms x 10 bodies x ##/#@#) x 16 page hosts x 5 generichide configurations, the ABP markers #?# / #@?#, generichide spellings against page URLs whose text normalisation changes; hide selectors, procedural actions, exceptions, generichide and the injected script (multiset of invocations) compared.',
@@ -63,7 +63,7 @@ CHECKS = {
    'All 256x256 permission pairs directly and through the full engine path; every dependency graph on 3 nodes (110 592 base graphs) x node permissions x injection lists in every order through the public get_scriptlet_resources (hash order enumerated, not drawn); every argument string of <= 3 (quick) / 4 (thorough) symbols over 13 symbols x 8 spellings x 3 positions; all pairs of 20 +js bodies for exceptions; all pairs of spelled arguments (state of the splitter across arguments); a second, rejected offer of a stored resource name.',
    'Ambiguous +js spellings (unbalanced quotes, text after a closing quote, runs of backslashes before a separator) are Unspecified; the emitted literal must still be well-formed.', 'DESIGN §4 C18'),
  'C19': ('SX+BX', 'model_checking', 'stateless DFS over thread interleavings of the real Sync build with iterative preemption bounding (CHESS-style), blocking decided by the real Mutex::try_lock through a cfg-guarded seam; plus cross-configuration differential',
-   'Thirteen base thread plans (every entry point that takes a shared reference: check, restricted check, csp, cosmetic, class/id, serialize_raw, get_regex_debug_info, tag_exists) and history plans (a single-thread preamble - every tagged regex rule used, tag switches, reloads, a mid-range discard policy with explicit clock steps on the virtual clock of the hooks - before 2x1 / 2x2 / 2x3 thread plans) (2x2, 3x1, 3x2, 2x3, mixed queries, URL-rewriting rules, blocked+excepted+rewritten requests, pages with opposite generichide verdicts, pages with different CSP answers) of real OS threads on one shared engine, all schedules with <= 2 (quick) / <= 3-4 (thorough) preemptions; every answer compared with the sequential answer; deadlock, panic and poisoning detected; every violating schedule replayed twice. The single-thread build writes answer hashes for 3 722 rule lists x 1 881 requests, the thread-safe build recomputes them.',
+   'Thirteen base thread plans (every entry point that takes a shared reference: check, restricted check, csp, cosmetic, class/id, serialize_raw, get_regex_debug_info, tag_exists) and history plans (a single-thread preamble - every tagged regex rule used, tag switches, reloads, a mid-range discard policy with explicit clock steps on the virtual clock of the hooks - before 2x1 / 2x2 / 2x3 thread plans; four cold-cache plans under the default policy in which one request visits several unused regex rules while the other thread uses one of them) (2x2, 3x1, 3x2, 2x3, mixed queries, URL-rewriting rules, blocked+excepted+rewritten requests, pages with opposite generichide verdicts, pages with different CSP answers) of real OS threads on one shared engine, all schedules with <= 2 (quick) / <= 3-4 (thorough) preemptions; every answer compared with the sequential answer; deadlock, panic and poisoning detected; every violating schedule replayed twice. The single-thread build writes answer hashes for 3 722 rule lists x 1 881 requests, the thread-safe build recomputes them.',
    'No preemption between scheduling points: exhaustive for the events of the seam, sound for the program as long as nothing shared is mutated outside the regex-manager lock. That assumption is only sampled: a free-running stress pass (8 real threads, every answer compared with the sequential one) in both tiers and a Miri pass in the thorough tier; neither is exhaustive and the evidence says so. A thread blocked on a lock outside the seam is reported by a watchdog as a deadlock of that schedule. Weak memory not modelled.', 'DESIGN §4 C19, §5'),
  'C20': ('BX', 'model_checking', T_BX + 'post-conditions on every emitted rule (ASCII, Safari regex-subset recogniser, ordering, filters_used) + inclusion against the real matcher',
    'Every pattern body of <= 6 (quick) / 7 (thorough) symbols x anchor modes x option frames as singleton sets, the single-edit neighbourhood of a 135-rule alphabet, and all ordered lists of <= 2/3 alphabet rules.',
